@@ -185,6 +185,15 @@ func (runInfo *runInfoStruct) callExpr() {
 		return
 	}
 
+	// a cancelled context stops the run before another call is started
+	select {
+	case <-runInfo.ctx.Done():
+		runInfo.err = ErrInterrupt
+		runInfo.rv = nilValue
+		return
+	default:
+	}
+
 	var rvs []reflect.Value
 	var args []reflect.Value
 	var useCallSlice bool
